@@ -5,7 +5,10 @@ P=$1; OUT=$2; shift 2
 CH=${@:-C01 C02 C03 C04 C05 C06 C07 C08 C09 C10 C11 C12 C13 C14 C15 C16 C17 C18 C19 C20}
 cd /verif
 [ -z "$(git -C /repo status --short)" ] || { echo "/repo not clean"; exit 2; }
-git -C /repo apply $P 2>/dev/null || git -C /repo apply -3 $P || { echo "patch does not apply"; git -C /repo checkout -- .; exit 2; }; git -C /repo reset -q 2>/dev/null
+if ! git -C /repo apply $P 2>/dev/null; then
+  if ! git -C /repo apply -3 $P 2>/dev/null; then echo "patch does not apply to the current tree (needs rebase)"; git -C /repo reset -q --hard HEAD; exit 2; fi
+  git -C /repo reset -q 2>/dev/null
+fi
 echo "{" > $OUT
 first=1
 for c in $CH; do
